@@ -294,6 +294,25 @@ impl Ctx {
   }
 }
 
+/// The violation keys a whole run of this binary observes in a fresh process (own scratch root, nothing written to
+/// the real evidence / replay directories).
+fn whole_run_keys(ctx: &Ctx, tier: Tier) -> Vec<String> {
+  let Ok(exe) = std::env::current_exe() else { return Vec::new() };
+  let root = ctx.root.join("replays").join(".whole-run");
+  let _ = std::fs::create_dir_all(&root);
+  let _ = std::fs::copy(ctx.root.join("known_findings.json"), root.join("known_findings.json"));
+  let out = std::process::Command::new(exe)
+    .args(["--tier", if tier == Tier::Quick { "quick" } else { "thorough" }])
+    .env("VX_WHOLE_RUN_CHILD", "1")
+    .env("VERIF_ROOT", &root)
+    .output();
+  let _ = std::fs::remove_dir_all(&root);
+  match out {
+    Ok(o) => String::from_utf8_lossy(&o.stdout).lines().filter_map(|l| l.strip_prefix("OBSERVED-KEY: ").map(|k| k.to_string())).collect(),
+    Err(_) => Vec::new(),
+  }
+}
+
 fn replay_keys<C, E>(ctx: &Ctx, eval: &E, case: &Value) -> Result<Vec<String>, String>
 where
   C: DeserializeOwned,
@@ -330,6 +349,17 @@ where
     let v: Value = serde_json::from_str(&txt).unwrap_or_else(|e| machinery_exit(&format!("replay file: {e}")));
     let case = v.get("case").cloned().unwrap_or(Value::Null);
     let want = v.get("key").and_then(|k| k.as_str()).unwrap_or("").to_string();
+    if v.get("whole_run").and_then(|w| w.as_bool()).unwrap_or(false) {
+      let t = if v.get("tier").and_then(|t| t.as_str()) == Some("thorough") { Tier::Thorough } else { Tier::Quick };
+      let keys = whole_run_keys(&ctx, t);
+      println!("replay {} (whole run in a fresh process) -> violation keys {:?}", path.display(), keys);
+      if keys.iter().any(|k| *k == want) {
+        println!("VIOLATION property={} replay={}", prop, path.display());
+        std::process::exit(1);
+      }
+      println!("replay: key {want:?} not reproduced on this tree");
+      std::process::exit(0);
+    }
     let a = replay_keys::<C, E>(&ctx, &eval, &case).unwrap_or_else(|e| machinery_exit(&e));
     let b = replay_keys::<C, E>(&ctx, &eval, &case).unwrap_or_else(|e| machinery_exit(&e));
     if a != b {
@@ -362,17 +392,26 @@ where
       new_viols.push(v.clone());
     }
   }
+  // A whole-run re-execution in a fresh process (see below) only wants to know which keys this run observes.
+  let child_rerun = std::env::var_os("VX_WHOLE_RUN_CHILD").is_some();
+  if child_rerun {
+    for v in &new_viols {
+      println!("OBSERVED-KEY: {}", v.key);
+    }
+    std::process::exit(0);
+  }
   // Every reported violation is replayed twice before it is believed.
   let replay_dir = ctx.root.join("replays");
   let mut exit_code = 0;
   let mut reported = Vec::new();
+  let mut not_reproduced: Vec<(usize, Viol, String)> = Vec::new();
   for (i, v) in new_viols.iter().enumerate() {
     let a = replay_keys::<C, E>(&ctx, &eval, &v.case);
     let b = replay_keys::<C, E>(&ctx, &eval, &v.case);
     match (&a, &b) {
       (Ok(a), Ok(b)) if a == b && a.iter().any(|k| *k == v.key) => {}
       _ => {
-        ctx.machinery.lock().unwrap().push(format!("violation {} did not reproduce identically on replay: {a:?} / {b:?}", v.key));
+        not_reproduced.push((i, v.clone(), format!("violation {} did not reproduce identically on replay: {a:?} / {b:?}", v.key)));
         continue;
       }
     }
@@ -385,6 +424,33 @@ where
     println!("  key={}  what={}  cases={}", v.key, v.what, v.count);
     reported.push(json!({"key": v.key, "what": v.what, "cases": v.count, "replay": path.display().to_string()}));
     exit_code = 1;
+  }
+
+  // A violation that was observed in the run but does not show when its case is evaluated on its own depends on what
+  // was evaluated before it (state the subject keeps between calls: a process-wide cache, a memo). The unit of replay is
+  // then the whole run: it is executed once more in a FRESH process; a key that is observed there again is reported,
+  // its artefact replays the whole run. A key that does not come back is a machinery matter (exit 2), never a verdict.
+  if !not_reproduced.is_empty() {
+    let again: Vec<String> = if exit_code == 0 { whole_run_keys(&ctx, tier) } else { Vec::new() };
+    for (i, v, msg) in not_reproduced {
+      if again.iter().any(|k| *k == v.key) {
+        let _ = std::fs::create_dir_all(&replay_dir);
+        let path = replay_dir.join(format!("{}-{}.json", prop, i));
+        let art = json!({"property": prop, "key": v.key, "what": v.what, "cases_with_this_key": v.count, "case": v.case, "whole_run": true,
+                         "note": "order-dependent: the case alone does not show the violation; observed in two whole runs (the second in a fresh process); the replay re-executes the whole run",
+                         "tier": if tier == Tier::Quick { "quick" } else { "thorough" },
+                         "replay_cmd": format!("./check {} --replay {}", prop, path.display())});
+        std::fs::write(&path, serde_json::to_string_pretty(&art).unwrap()).unwrap_or_else(|e| machinery_exit(&format!("write replay: {e}")));
+        println!("VIOLATION property={} replay={}", prop, path.display());
+        println!("  key={}  what={}  cases={}  (order-dependent; whole-run replay)", v.key, v.what, v.count);
+        reported.push(json!({"key": v.key, "what": v.what, "cases": v.count, "replay": path.display().to_string(), "whole_run": true}));
+        exit_code = 1;
+      } else if exit_code == 0 {
+        ctx.machinery.lock().unwrap().push(msg);
+      } else {
+        ctx.machinery.lock().unwrap().push(msg);
+      }
+    }
   }
 
   // Evidence of a companion binary run just before this one (e.g. C15S: the Stronghold part of C15's
